@@ -138,7 +138,8 @@ def defaultFrameMatchCondition (avail : List Qubit) : Instr → Option Conds
   | .gate _ | .measure _ | .defcal _ _ | .defcalMeasure _ _ | .other => none
 
 mutual
-/-- `Instruction::get_qubits` (mod.rs:689-725). -/
+/-- `Instruction::get_qubits` (mod.rs:689-736; the frame-update and SWAP-PHASES arms were added by
+`fix:` commit a86534e). -/
 def getQubits : Instr → List Qubit
   | .gate qs => qs
   | .defcal qs body => qs ++ getQubitsAll body
@@ -151,7 +152,9 @@ def getQubits : Instr → List Qubit
   | .capture _ f => f.qubits
   | .pulse _ f => f.qubits
   | .rawCapture _ f => f.qubits
-  | _ => []
+  | .setFrequency f | .setPhase f | .setScale f | .shiftFrequency f | .shiftPhase f => f.qubits
+  | .swapPhases f1 f2 => f1.qubits ++ f2.qubits
+  | .other => []
 /-- `instructions.iter().flat_map(|inst| inst.get_qubits())` -/
 def getQubitsAll : List Instr → List Qubit
   | [] => []
